@@ -12,9 +12,17 @@ vectors and repeated action sets.
 (the valuation depends only on the active action set); where it is needed it is an
 explicit hypothesis.
 
+That the explorer's own archive after every iteration IS the protocol step `offer` applied to the
+iteration's candidate, and hence satisfies `Inv` after every iteration of every run, is
+`iterate_archive_eq_offer` / `run_archive_inv` in `Properties/C06.lean` (audited by `./check C05` too).
+
 The last sentence of the property ("each reported member's objective values are those
 of the model evaluated at that member's action set") is not a statement about the
-archive: it is decided by the correspondence suite `suppa-runs` together with C01/C09.
+archive alone: inside a run it is `ExOk.arch` of `run_archive_inv` (every member is the compressed
+form of a state the model went through, and the values are a function of the action set); for what
+is written / served it is `saved_row_is_run_valuation` in `Properties/Compose.lean` (C09 ∘ C01,
+audited by `./check C05` too); and the correspondence suite `suppa-runs` re-evaluates every final
+member on a fresh model.
 -/
 namespace Crem.Archive
 open Crem.Dominance
@@ -132,6 +140,89 @@ theorem protocol_inv (d : Nat) (steps : List (Bool × Entry)) (hd : Dim d (steps
   have hdim : Dim d (runProtocol (domN d) [] steps) := fun e he => hd e (inv.sub e he)
   exact ⟨⟨(nonDom_real_iff d _ hdim).mpr inv.nd, inv.nodup⟩, inv.sub⟩
 
+/-- non-dominance alone survives the forced store after a refusal — no consistency needed (only
+duplicate-freedom needs it, see `force_inv_after_refusal`) -/
+theorem force_nonDom_after_refusal (d : Nat) (a : List Entry) (c : Entry) (ha : Dim d a) (hc : c.vec.length = d)
+    (h : NonDom dominates a) (hr : (Real.attempt a c).1 = .rejDominated) :
+    NonDom dominates (Real.force a c).2 := by
+  obtain ⟨⟨w, hw, hwd⟩, _⟩ := (attempt_refused_reason a c).1 hr
+  have hd : Dim d (force (domN d) a c).2 := by
+    intro e he
+    rcases mem_force_of_mem a c e he with h' | h'
+    · exact ha e h'
+    · rw [h']; exact hc
+  have hw' : ∃ m ∈ a, domN d m.vec c.vec = true := ⟨w, hw, by rw [domN_eq d _ _ (ha w hw) hc]; exact hwd⟩
+  unfold Real.force
+  rw [force_real_eq d a c ha hc, nonDom_real_iff d _ hd]
+  exact force_nonDom (domN_strictPO d) a c ((nonDom_real_iff d a ha).mp h) hw'
+
+/-- **a held action set is recognised as held.**  If the archive satisfies the invariant and every
+member carrying the candidate's action set carries the candidate's vector (C01: the values depend
+only on the action set), a candidate whose action set some member holds is refused with the verdict
+*duplicate* (never *dominated*) and the archive is unchanged.  Without the consistency hypothesis
+this is false: see the example below. -/
+theorem held_is_duplicate (a : List Entry) (c : Entry) (h : Inv a)
+    (hcons : ∀ m ∈ a, m.act = c.act → m.vec = c.vec) (hheld : ∃ m ∈ a, m.act = c.act) :
+    Real.attempt a c = (.rejDuplicate, a) :=
+  attempt_of_cannot_some a c _ (cannot_of_held a c h.1 hcons hheld)
+
+/-- the verdict of an offer, decided by the archive's contents alone (under the invariant and
+consistency): duplicate ⇔ the action set is held; dominated ⇔ not held and some member dominates;
+stored ⇔ neither -/
+theorem attempt_verdict_iff (a : List Entry) (c : Entry) (h : Inv a)
+    (hcons : ∀ m ∈ a, m.act = c.act → m.vec = c.vec) :
+    ((Real.attempt a c).1 = .rejDuplicate ↔ ∃ m ∈ a, m.act = c.act) ∧
+    ((Real.attempt a c).1 = .rejDominated ↔
+      (¬ ∃ m ∈ a, m.act = c.act) ∧ ∃ m ∈ a, dominates m.vec c.vec = true) := by
+  refine ⟨⟨fun hr => ((attempt_refused_reason a c).2.1 hr).1, fun hh => by rw [held_is_duplicate a c h hcons hh]⟩,
+    ⟨fun hr => ⟨fun hh => ?_, ((attempt_refused_reason a c).1 hr).1⟩, fun ⟨hnh, hdom⟩ => ?_⟩⟩
+  · rw [held_is_duplicate a c h hcons hh] at hr; simp at hr
+  · unfold Real.attempt
+    rcases attempt_res_cases (dom := dominates) a c with ⟨hc, _⟩ | ⟨_, h2⟩ | ⟨hc, _⟩
+    · obtain ⟨m, hm, hmd⟩ := hdom
+      have := ((cannot_none_iff a c).mp hc m hm).1
+      rw [hmd] at this; simp at this
+    · rw [h2]
+    · exact absurd (cannot_rejDuplicate a c hc) hnh
+
+/-- **one step of the explorer's protocol keeps the invariant, from any archive satisfying it**:
+offer the candidate; when it was refused as dominated, it may be forced (`b`) -/
+theorem offer_inv (d : Nat) (b : Bool) (a : List Entry) (c : Entry) (ha : Dim d a) (hc : c.vec.length = d)
+    (h : Inv a) (hcons : ∀ m ∈ a, m.act = c.act → m.vec = c.vec) : Inv (Real.offer b a c) := by
+  have hatt := attempt_inv d a c ha hc h
+  unfold Real.offer offer
+  split
+  · rename_i a' heq
+    have hr : (Real.attempt a c).1 = .rejDominated := by unfold Real.attempt; rw [heq]
+    have ha' : a' = a := by
+      have := ((attempt_refused_reason a c).1 hr).2
+      unfold Real.attempt at this; rw [heq] at this; exact this
+    subst ha'
+    split
+    · exact force_inv_after_refusal d a' c ha hc h hr hcons
+    · exact h
+  · rename_i r a' hne heq
+    unfold Real.attempt at hatt; rw [heq] at hatt; exact hatt
+
+/-- the invariant does not depend on the storage order (`SelectRandomIsolatedModel` sorts the archive
+in place with `sort.Sort`, whose contract — the result is a permutation — is all that is used) -/
+theorem inv_perm {a b : List Entry} (hp : a.Perm b) (h : Inv a) : Inv b :=
+  ⟨NonDom.perm hp h.1, NoDup.perm hp h.2⟩
+
+/-- the archive's own self-check `IsNonDominant` (transcribed with its off-by-one: it never looks at
+the last entry) answers *true* on every archive satisfying the invariant; so the explorer's
+`CheckNonDominance` panic is unreachable wherever the invariant holds -/
+theorem inv_passes_selfcheck (a : List Entry) (h : Inv a) : isNonDominantAsWritten dominates a = true :=
+  isNonDominantAsWritten_of_nonDom a h.1
+
+/-- … the converse fails: the self-check is weaker than the invariant (it accepts a dominated last
+entry), which is why the check evaluates the invariant itself and not `IsNonDominant` -/
+theorem selfcheck_weaker_than_inv :
+    ∃ a : List Entry, isNonDominantAsWritten dominates a = true ∧ ¬ Inv a :=
+  ⟨[⟨[1, 1], [true]⟩, ⟨[2, 2], [false]⟩], by decide, fun h => by
+    have := h.1 ⟨[1, 1], [true]⟩ (by simp) ⟨[2, 2], [false]⟩ (by simp)
+    revert this; decide⟩
+
 /-! ### examples: non-vacuity, and why the hypotheses are there (tests, labelled as such) -/
 
 private def e1 : Entry := ⟨[1, 5], [true, false]⟩
@@ -153,5 +244,21 @@ forcing `e1` into `[e4]` keeps `e4` (it does not dominate `e1`) although `e1` do
 explorer only forces candidates the archive has just refused as dominated (`protocol_inv`), and the
 correspondence suite checks that the real explorer obeys that protocol. -/
 example : (Real.force [e4] e1).2 = [e4, e1] ∧ dominates e1.vec e4.vec = true := by decide
+/-- `held_is_duplicate` needs consistency: here the second member holds the candidate's action set
+`[false]` (with another vector), yet the first member decides the refusal — *dominated*.  The draw
+would then decide a candidate the property says is accepted with certainty, and a forced store would
+put a second member with action set `[false]` into the archive. -/
+example : (Real.attempt [⟨[1, 1], [true]⟩, ⟨[0, 5], [false]⟩] ⟨[5, 1], [false]⟩).1 = .rejDominated ∧
+    (Real.offer true [⟨[1, 1], [true]⟩, ⟨[0, 5], [false]⟩] ⟨[5, 1], [false]⟩).map (·.act) = [[false], [false]] := by
+  decide
+-- `held_is_duplicate` / `offer_inv` are not vacuous: a consistent archive holding the candidate's set
+example : Real.attempt [e1, e2] e1 = (.rejDuplicate, [e1, e2]) := by decide
+example : Inv [e1, e2] := by
+  refine ⟨?_, ?_⟩
+  · intro m hm n hn
+    simp at hm hn
+    rcases hm with rfl | rfl <;> rcases hn with rfl | rfl <;> decide
+  · simp [NoDup, e1, e2]
+example : [e2, e1].Perm [e1, e2] := List.Perm.swap e1 e2 []
 
 end Crem.Archive
